@@ -149,7 +149,15 @@ def _starts_above(w: str, v: str, loop, depth: int) -> bool:
 def classify(fn: Func, loop: ast.While):
     tried = []
     assigned = _assigned_in(loop)
-    for c in _conjuncts(loop.test):
+    conds = _conjuncts(loop.test)
+    if isinstance(loop.test, ast.Constant) and loop.test.value is True:
+        # `while True: ok = self.step(); ...; if not ok: break; ...`: the loop continues under the same condition as `while self.step():`
+        answers = {t.id: st.value for st in loop.body if isinstance(st, (ast.Assign, ast.AnnAssign)) and st.value is not None
+                   for t in (st.targets if isinstance(st, ast.Assign) else [st.target]) if isinstance(t, ast.Name)}
+        conds = [answers[st.test.operand.id] for st in loop.body if isinstance(st, ast.If) and isinstance(st.test, ast.UnaryOp)
+                 and isinstance(st.test.op, ast.Not) and isinstance(st.test.operand, ast.Name) and st.test.operand.id in answers
+                 and any(isinstance(b, ast.Break) for b in st.body)]
+    for c in conds:
         # ---- cursor
         if isinstance(c, ast.Compare) and len(c.ops) == 1 and isinstance(c.ops[0], (ast.Lt, ast.LtE, ast.Gt, ast.GtE, ast.NotEq)):
             l, r, op = c.left, c.comparators[0], c.ops[0]
